@@ -2,13 +2,13 @@
 from vf.hx import *  # noqa
 
 
-def ledger(P, q0, q1, q2, t1, t2, d0, d1, d2, m0, m1, m2, sus_t, sus_pool, K=7, want=""):
+def ledger(P, q0, q1, q2, t1, t2, d0, d1, d2, m0, m1, m2, sus_t, sus_pool, K=7, oc=False, want=""):
     """Executor with P pools (4 CPU / 40 GB each).  Three 2-operator pipelines are assigned at ticks
     0, t1, t2 with pool numbers q0, q1, q2 (any integer, possibly not a pool); container i gets
     2 CPU / 10 GB, its first operator runs d_i ticks with fixed memory m_i (so m_i > 10 => OOM), its
     second one 1 tick.  At tick sus_t a Suspend for the first container is sent to pool sus_pool."""
     reset_globals()
-    ex = Executor(num_pools=P, cpus_per_pool=4, ram_gb_per_pool=40, ticks_per_second=1)
+    ex = Executor(num_pools=P, cpus_per_pool=4, ram_gb_per_pool=40, ticks_per_second=1, allow_memory_overcommit=oc)
     specs = [(0, q0, d0, m0), (t1, q1, d1, m1), (t2, q2, d2, m2)]
     pipes = []
     for i, (at, q, d, m) in enumerate(specs):
@@ -119,6 +119,13 @@ def ledger(P, q0, q1, q2, t1, t2, d0, d1, d2, m0, m1, m2, sus_t, sus_pool, K=7, 
         for cid in live_before:
             if cid not in live_now and cid not in ended:
                 return "C09:container_vanished_without_outcome"
+        # a running container ends: started at tick `at`, it needs d ticks for its first operator and one for the second
+        # (or is killed earlier), so it is no longer active after tick at + d
+        for pool in ex.pools:
+            for c in pool.active_containers:
+                for i, (at, q, d, m) in enumerate(specs):
+                    if c.assignment.pipeline_id == f"p{i}" and t > at + d:
+                        return "C09:container_never_reaches_its_outcome"
         if accepted != succ + fail + suspended + len(live_now):
             return "C09:ledger_equation_broken"
         total_completed = sum(pool.num_completed for pool in ex.pools)
@@ -130,7 +137,7 @@ def ledger(P, q0, q1, q2, t1, t2, d0, d1, d2, m0, m1, m2, sus_t, sus_pool, K=7, 
     return ""
 
 
-def outcome_states(r0, d0, r1, d1, dy, alloc, my, K=8, want=""):
+def outcome_states(r0, d0, r1, d1, dy, alloc, my, K=8, oc=False, want=""):
     """One container holding two independent operators X (two segments) and Y (one segment): whatever the
     segments' sizes (a trailing segment may last a positive time that rounds to zero ticks), the container's
     single result is a success exactly when both operators completed, a failure names an error and leaves a
@@ -142,7 +149,7 @@ def outcome_states(r0, d0, r1, d1, dy, alloc, my, K=8, want=""):
     x.add_segment(Segment(baseline_cpu_seconds=d1, cpu_scaling="const", memory_gb=1, storage_read_gb=r1))
     y = p.new_operator()
     y.add_segment(Segment(baseline_cpu_seconds=dy, cpu_scaling="const", memory_gb=my, storage_read_gb=0))
-    ex = Executor(num_pools=1, cpus_per_pool=2, ram_gb_per_pool=100, ticks_per_second=1)
+    ex = Executor(num_pools=1, cpus_per_pool=2, ram_gb_per_pool=100, ticks_per_second=1, allow_memory_overcommit=oc)
     a = Assignment(ops=[x, y], cpu=1, ram=alloc, priority=Priority.BATCH_PIPELINE, pool_id=0, pipeline_id="p")
     got = None
     for t in range(K):
